@@ -83,7 +83,7 @@ func mutexOp(c ssa.CallInstruction) (field, op string) {
 
 // locksets computes, for every instruction of fn, the set of mutexes that are held on every path reaching it.
 // `defer m.Unlock()` keeps the lock to the end of the function. Function literals are analysed on their own, starting empty.
-func locksets(fn *ssa.Function) map[ssa.Instruction]lockState {
+func locksets(fn *ssa.Function, entry lockState) map[ssa.Instruction]lockState {
 	in := map[*ssa.BasicBlock]lockState{}
 	out := map[*ssa.BasicBlock]lockState{}
 	known := map[*ssa.BasicBlock]bool{}
@@ -114,7 +114,7 @@ func locksets(fn *ssa.Function) map[ssa.Instruction]lockState {
 		return st
 	}
 	work := []*ssa.BasicBlock{fn.Blocks[0]}
-	in[fn.Blocks[0]] = lockState{}
+	in[fn.Blocks[0]] = entry.clone()
 	known[fn.Blocks[0]] = true
 	for len(work) > 0 {
 		b := work[0]
@@ -213,16 +213,9 @@ func checkC20(e *Engine, r *Report) {
 		calc := e.Fn(pkgFmKeeper, "Keeper.CalculateBaseFee")
 		okDiv := false
 		mult := constUint(e, pkgGethParams, "ElasticityMultiplier")
-		for _, c := range callsTo(calc, false, CallSpec{pkgBig, "", "NewInt"}) {
-			x := c.Common().Args[0]
-			if !hasFieldLoad(sliceFrom(x), "", "MaxGas") {
-				continue
-			}
-			gs, bounds := lowerBoundGuards(calc, x)
-			for j, g := range gs {
-				if bounds[j] >= mult && blockDominatedByEdge(calc, c.Block(), g) {
-					okDiv = true
-				}
+		if cbf := callsTo(calc, false, CallSpec{pkgGethMisc, "", "CalcBaseFee"}); len(cbf) == 1 {
+			if gl := literalFields(resolveLocal(cbf[0].Common().Args[1]))["GasLimit"]; gl != nil {
+				okDiv, _ = e.provesGE(gl, mult, cbf[0].Block(), 0)
 			}
 		}
 		r.Check(okDiv, "feemarket EndBlock › gas target cannot be zero", e.Pos(calc.Pos()), "MaxGas >= ElasticityMultiplier guards its use as gas limit", "CalcBaseFee can divide by a zero gas target in EndBlock (consensus MaxGas 0 or 1)")
@@ -283,11 +276,94 @@ func checkC20(e *Engine, r *Report) {
 
 	funcs := rpcFuncs(e)
 	lsMemo := map[*ssa.Function]map[ssa.Instruction]lockState{}
-	ls := func(f *ssa.Function) map[ssa.Instruction]lockState {
+	// "caller must hold the lock" helpers: an unexported function that is only ever called directly (never used as a value,
+	// never started with go/defer, not reachable through an interface of its package) starts with the locks that are held
+	// at every one of its call sites.
+	staticSites := map[*ssa.Function][]ssa.CallInstruction{}
+	escapes := map[*ssa.Function]bool{}
+	ifaceMethodNames := map[string]bool{}
+	{
+		seenPkg := map[string]bool{}
+		for _, f := range funcs {
+			pp := pkgPathOf(f)
+			if seenPkg[pp] {
+				continue
+			}
+			seenPkg[pp] = true
+			if p := e.Pkg(pp); p != nil {
+				sc := p.Types.Scope()
+				for _, nm := range sc.Names() {
+					if tn, ok := sc.Lookup(nm).(*types.TypeName); ok {
+						if it, isI := tn.Type().Underlying().(*types.Interface); isI {
+							for k := 0; k < it.NumMethods(); k++ {
+								ifaceMethodNames[pp+"."+it.Method(k).Name()] = true
+							}
+						}
+					}
+				}
+			}
+		}
+		byObj := map[types.Object]*ssa.Function{}
+		for _, f := range funcs {
+			if f.Object() != nil && f.Synthetic == "" {
+				byObj[f.Object()] = f
+			}
+		}
+		for _, f := range funcs {
+			allInstrs(f, true, func(_ *ssa.Function, _ *ssa.BasicBlock, i ssa.Instruction) {
+				var rands [16]*ssa.Value
+				for _, op := range i.Operands(rands[:0]) {
+					g, ok := (*op).(*ssa.Function)
+					if !ok || g == nil {
+						continue
+					}
+					if g.Synthetic != "" {
+						if t := byObj[g.Object()]; t != nil {
+							escapes[t] = true
+						}
+						continue
+					}
+					if c, isCall := i.(*ssa.Call); isCall && c.Call.Value == ssa.Value(g) {
+						staticSites[g] = append(staticSites[g], c)
+						continue
+					}
+					escapes[g] = true
+				}
+			})
+		}
+	}
+	inProgress := map[*ssa.Function]bool{}
+	var ls func(f *ssa.Function) map[ssa.Instruction]lockState
+	entryLocks := func(f *ssa.Function) lockState {
+		obj := f.Object()
+		if obj == nil || obj.Exported() || f.Parent() != nil || escapes[f] || len(staticSites[f]) == 0 || ifaceMethodNames[pkgPathOf(f)+"."+obj.Name()] {
+			return lockState{}
+		}
+		var st lockState
+		for _, c := range staticSites[f] {
+			caller := c.Parent()
+			if inProgress[caller] {
+				return lockState{}
+			}
+			h := ls(caller)[c]
+			if st == nil {
+				st = h.clone()
+			} else {
+				st = meet(st, h)
+			}
+		}
+		if st == nil {
+			st = lockState{}
+		}
+		return st
+	}
+	ls = func(f *ssa.Function) map[ssa.Instruction]lockState {
 		if m, ok := lsMemo[f]; ok {
 			return m
 		}
-		m := locksets(f)
+		inProgress[f] = true
+		m := locksets(f, entryLocks(f))
+		inProgress[f] = false
 		lsMemo[f] = m
 		return m
 	}
